@@ -109,9 +109,9 @@ def load_and_compare(env, fmt, via, variant, data, e, loadkw, keyprefix=None):
     """One load through the real code + all clauses.  Returns True when the load returned a system."""
     rec, am = env.rec, env.am
     key = keyprefix or f'{fmt}:{via}:{variant}'
-    what = f'{fmt} via {via} ({variant})'
+    what = fmt
     system = None
-    with env.ctx.guard(f'{what}: load of a file written by dump', key + ':exception'):
+    with env.ctx.guard(f'{fmt}: load does not raise on a well-formed file', key + ':exception'):
         system = am.load(fmt, data, **loadkw)
     if system is None:
         return False
@@ -143,7 +143,7 @@ def three_ways(env, fmt, text, path, e, loadkw, variant='plain', stream_kind=0):
     else:
         if isinstance(s, tuple):
             s = s[0]
-        CMP.compare(rec, f'{fmt}:textstream:{variant}', observe(s), e, f'{fmt} via text stream')
+        CMP.compare(rec, f'{fmt}:textstream:{variant}', observe(s), e, fmt)
 
 
 def write_path(env, name, text_from_string, dumper):
@@ -166,7 +166,7 @@ def common_axes(i, kinds):
     """Deterministic, mutually decorrelated class choices for case index i."""
     nk = len(kinds)
     kind = kinds[i % nk]
-    pbc = cells.PBCS[(7 + i + i // nk) % 8]                       # fully periodic first
+    pbc = cells.PBCS[7] if (i + i // nk) % 2 == 0 else cells.PBCS[(i // 2 + i // 16) % 8]      # every other case fully periodic
     posclass = GS.POSCLASSES[(1 + i + i // 8) % 4]
     typeclass = GS.TYPECLASSES[(1 + i // 2 + i // 16) % 4]
     origin = cells.ORIGINS[(1 + i + i // 3) % 3]
@@ -273,7 +273,8 @@ def group_data(env):
             rec.count('class:atom_data:velocities-section')
         sec = TX.data_section(text.split('\n'), 'Atoms')
         ncol = len(text.split('\n')[sec[1]].split())
-        if ncol == 5 + sum(int(np.prod(s or (1,))) for _, _, s, _ in ST.atoms_columns(style)) + 3:
+        flags_written = ncol == 5 + sum(int(np.prod(s or (1,))) for _, _, s, _ in ST.atoms_columns(style)) + 3
+        if flags_written:
             rec.count('class:atom_data:image-flags-written')
         path = write_path(env, f'data_{i}.dat', text,
                           lambda p: build(env, truth, props).dump('atom_data', f=p, return_info=False, safecopy=True, **dkw))
@@ -283,7 +284,10 @@ def group_data(env):
         three_ways(env, 'atom_data', text, path, e, lkw, stream_kind=i)
         # order of atom lines / comments and blank lines
         sh = TX.data_shuffle(text, rng)
-        load_and_compare(env, 'atom_data', 'string', 'shuffled', sh, e, lkw)
+        # (a file that carries image flags gets its own mechanism key: flags and atoms are matched by id)
+        fk = 'atom_data:shuffled:image-flags' if flags_written else None
+        rec.count('class:atom_data:shuffled:' + ('image-flags' if flags_written else 'no-image-flags'))
+        load_and_compare(env, 'atom_data', 'string', 'shuffled', sh, e, lkw, keyprefix=fk)
         drop = (i % 4 == 1)
         dec = TX.data_decorate(text, rng, drop_style_comment=drop)
         lkw2 = dict(lkw)
@@ -295,7 +299,7 @@ def group_data(env):
         with open(bp, 'w') as f:
             f.write(both)
         load_and_compare(env, 'atom_data', 'path' if i % 2 else 'stream', 'shuffled+decorated',
-                         bp if i % 2 else io.BytesIO(both.encode()), e, lkw2)
+                         bp if i % 2 else io.BytesIO(both.encode()), e, lkw2, keyprefix=fk)
         # a required part is missing -> the format error, never a system
         for what in ('atoms', ('xbox', 'ybox', 'zbox')[i % 3], 'Atoms'):
             bad = TX.data_truncate(dec if i % 2 else text, what)
@@ -410,7 +414,7 @@ def group_dump(env):
             rec.sample(dict(variant=variant, units=units, float_format=fmt, cell=kind, pbc=pbc, natoms=natoms,
                             props=sorted(props), prop_name=dkw.get('prop_name')))
         text = pinfo = None
-        with ctx.guard('atom_dump dump to a string', 'atom_dump:dump:exception'):
+        with ctx.guard('atom_dump dump to a string', 'atom_dump:dump:lj:exception' if units == 'lj' else 'atom_dump:dump:exception'):
             text, pinfo = build(env, truth, props).dump('atom_dump', return_prop_info=True, **dkw)
         if not isinstance(text, str):
             continue
@@ -511,6 +515,7 @@ def group_table(env):
         elif variant == 'names':
             dkw.update(prop_name=['atype', 'pos', 'velocity', 'stress', 'cna', 'flag'],
                        table_name=['t', ['px', 'py', 'pz'], ['v1', 'v2', 'v3'], ['s%d' % k for k in range(9)], 'c', 'f'],
+                       shape=[(), (3,), (3,), (3, 3), (), ()],
                        unit=[None, lunit, vunit, None, None, None])
         sig = ('table', variant, fmt, lunit if use_units else '-')
         rec.case(sig + (kind, origin, posclass, typeclass), nontrivial=nontrivial(truth, 'si' if use_units and lunit != 'angstrom' else 'metal'),
@@ -578,7 +583,7 @@ def three_ways_table(env, text, path, e, mkbox, lkw, variant, i):
     except Exception as ex:
         rec.fail('table: a text-mode stream is refused with ValueError', 'table:textstream:exception', exception=ex)
     else:
-        CMP.compare(rec, f'table:textstream:{variant}', observe(s), e, 'table via text stream')
+        CMP.compare(rec, f'table:textstream:{variant}', observe(s), e, 'table')
 
 
 # ------------------------------------------------------------------------------------------------ POSCAR
@@ -612,8 +617,8 @@ def group_poscar(env):
         if symmode == 'param':
             written = [str(x) for x in rng.permutation(GS.ELEMENTS)[:truth['natypes']]]
             dkw['symbols'] = written
-        elif symmode == 'system':
-            written = list(truth['symbols'])
+        elif truth['symbols'] is not None and None not in truth['symbols']:
+            written = list(truth['symbols'])          # the writer stores the system's symbols when every type has one
         sig = ('poscar', cs, scale, symmode, fmt)
         rec.case(sig + (kind, origin, posclass, typeclass), nontrivial=nontrivial(truth) or scale != 1.0,
                  fp=fingerprint(truth['vects'], truth['origin'], truth['pos'], truth['atype'], sig))
